@@ -3,7 +3,7 @@ CONSTANTS
   Kinds = {"Struct", "Fn"}
   Abis = {"C", "system"}
   BAttrs = {"none", "a"}
-  FKinds = {"FFn", "FStatic"}
+  FKinds = {"FFn"}
   FAttrs = {"none"}
   MaxForeign = 1
   MaxLen = 5
